@@ -120,7 +120,7 @@ def table_for(g, inputs, entries, bytes_mode):
             except AttributeError:
                 out.append(['EXC', 'AttributeError', None])
                 continue
-            o = impl.run(parse, e1.fresh(t), 0, True, time_limit=1.0)
+            o = impl.run(parse, e1.fresh(t), 0, True, time_limit=1.0, patient=True)
             if o['kind'] == 'RET':
                 out.append(['RET', jsonable(o['value']), None])
             elif o['kind'] == 'PARTIAL':
